@@ -25,7 +25,7 @@ def main():
         mod = importlib.import_module(mod_name)
         obs = {o.id: o for o in mod.obligations(tier, int(seed))}
         o = obs[ob_id]
-        out['patches'] = chpatch.apply(reals=o.reals, opaque=o.opaque)
+        out['patches'] = chpatch.apply(reals=o.reals, opaque=o.opaque, sqrt_free=o.sqrt_free)
         OB.TWIN = twin
         fn = getattr(mod, o.factory)(**o.params)
 
